@@ -23,6 +23,7 @@ let channels : (string * ((string * string) list -> string)) list = [
   ("llpbig", Chan_llp.run_big);
   ("llprun", Chan_llp.run_run);
   ("ess", Chan_ess.run);
+  ("essbig", Chan_ess.run_big);
   ("sort", Chan_sort.run_sort);
   ("sortcodec", Chan_sort.run_codec);
   ("sortkm", Chan_sort.run_km);
